@@ -98,7 +98,12 @@ def check_case(case):
     r = run_lexer(text, FILENAME, is_type)
     info = {"ntok": len(r.toks), "pasted": False, "three_valued": False,
             "types": None, "key": hash((text, case.get("lookup", "T")))}
+    info["text"] = text
     fails = []
+    if r.exc is not None:
+        # an exception escaping the lexer: it neither finished nor reported
+        return [("lexer:exception:" + r.exc,
+                 f"{text!r}: {r.exc_repr} after {len(r.toks)} tokens")], info
     if not r.terminated:
         fails.append(("no-termination", f"{r.calls} token() calls on {len(text)} characters"))
     pasted = any(t.pasted for t in lay.toks)
@@ -205,7 +210,7 @@ def _run_cases(cases, acc):
             acc["with_directive"] += 1
         for sig, det in fails:
             if len(acc["fails"]) < 40 or sig not in acc["sigs"]:
-                acc["fails"].append((sig, case, det))
+                acc["fails"].append((sig, dict(case, text=info.get("text")), det))
             acc["sigs"].add(sig)
             acc["nfail"] += 1
 
@@ -285,6 +290,8 @@ def char_invariants(text):
     """-> (list of (sig, detail), nontrivial?)."""
     r = run_lexer(text, "")
     fails = []
+    if r.exc is not None:
+        return [("lexer:exception:" + r.exc, f"{text!r}: {r.exc_repr} after {len(r.toks)} tokens")], True
     if not r.terminated:
         fails.append(("chars:no-termination", f"{r.calls} token() calls on {len(text)} characters"))
         return fails, True
@@ -496,12 +503,13 @@ def replay(rep):
         fl, _ = char_invariants(c["text"])
         print("input:", repr(c["text"]))
         r = run_lexer(c["text"], "")
-        print("events:", r.events)
+        print("events:", r.events, "exception:", r.exc, r.exc_repr)
     else:
         fl, info = check_case(c)
         lay = _build(c)
         print("input:", repr(lay.text))
-        print("lexer:", run_lexer(lay.text, FILENAME, _lookup(c.get("lookup", "T"))).events)
+        rr = run_lexer(lay.text, FILENAME, _lookup(c.get("lookup", "T")))
+        print("lexer:", rr.events, "exception:", rr.exc, rr.exc_repr)
         if not info["pasted"]:
             print("model:", layout.expected_tokens(lay, _lookup(c.get("lookup", "T"))))
     for sig, det in fl:
